@@ -180,7 +180,7 @@ type ReverseInnerSearcher struct {
 	reverseDFA      *lazy.DFA
 	forwardDFA      *lazy.DFA
 	prefilter       prefilter.Prefilter
-	pikevm          *nfa.PikeVM
+	pikevm          *pikevmPool
 	innerLen        int       // Length of the inner literal for calculating positions
 	universalPrefix bool      // True if prefix is .* (matches everything from start)
 	universalSuffix bool      // True if suffix ends with .* (matches everything to end)
@@ -290,7 +290,7 @@ func NewReverseInnerSearcher(
 	}
 
 	// Create PikeVM for fallback (uses full pattern)
-	pikevm := nfa.NewPikeVM(fullNFA)
+	pikevm := newPikeVMPool(fullNFA)
 
 	// Forward DFA of the full pattern. The first confirmed candidate fixes the match
 	// START; the END is that of the leftmost-first match from there, which for a greedy
